@@ -2,6 +2,7 @@ package rules
 
 import (
 	"fmt"
+	"sort"
 	"go/token"
 	"go/types"
 	"strings"
@@ -229,6 +230,7 @@ func runC10(c *Ctx) {
 	ruleValidate(c, a)
 	ruleKeepOld(c, a, "KEEPOLD")
 	rulePropagate(c, a)
+	ruleFresh(c, a)
 	ruleRelease(c, a)
 	ruleStopFn(c, a)
 	// a failed bind must not leave a reference behind, or a later generation can never release the address
@@ -299,6 +301,240 @@ func ruleValidate(c *Ctx, a *reloadAnchors) {
 		c.Floor("VALIDATE", "start calls in the reload path of "+short(lc), len(runCalls), 1)
 	}
 	c.Floor("VALIDATE", "guard obligations", n, 3)
+	ruleValidateAgrees(c, a)
+}
+
+// enumSets: for every (struct type, field) of the server command whose loaded value is compared with constants in the region,
+// the set of constants it is compared with (switch cases and if chains alike).
+func enumSets(c *Ctx, reg *Region) map[string]map[string]bool {
+	out := map[string]map[string]bool{}
+	reg.Instrs(func(_ *ssa.Function, ins ssa.Instruction) {
+		bo, ok := ins.(*ssa.BinOp)
+		if !ok || (bo.Op != token.EQL && bo.Op != token.NEQ) {
+			return
+		}
+		for _, pr := range [][2]ssa.Value{{bo.X, bo.Y}, {bo.Y, bo.X}} {
+			cst, ok := pr[1].(*ssa.Const)
+			if !ok || cst.Value == nil {
+				continue
+			}
+			for _, o := range c.P.Origins(pr[0], eng.OriginOpts{ThroughConvert: true}) {
+				t, f, _, ok := eng.FieldLoad(o)
+				if !ok {
+					if fl, isF := o.(*ssa.Field); isF {
+						if st, isS := fl.X.Type().Underlying().(*types.Struct); isS {
+							t, f, ok = eng.TypeName(fl.X.Type()), st.Field(fl.Field).Name(), true
+						}
+					}
+				}
+				if !ok || !strings.HasPrefix(t, mainPkg+".") {
+					continue
+				}
+				k := t + "." + f
+				if out[k] == nil {
+					out[k] = map[string]bool{}
+				}
+				out[k][cst.Value.ExactString()] = true
+			}
+		}
+	})
+	return out
+}
+
+// ruleValidateAgrees: what Validate accepts is what the start code acts on — (AGREE) for every enumerated configuration field
+// that both test, the sets of values they distinguish are equal (a value Validate lets through but the start code's switch
+// does not handle is silently skipped: the reload "succeeds" with that listener missing); (PURE) Validate tests the
+// configuration itself, it does not first rewrite a local copy of a configuration entry (the start code would see the
+// original value).
+func ruleValidateAgrees(c *Ctx, a *reloadAnchors) {
+	p := c.P
+	val := p.Fn("(*" + mainPkg + ".Config).Validate")
+	if val == nil {
+		c.Undecided("VALIDATE", "anchor:Validate", "-", "Config.Validate not found")
+		return
+	}
+	inMain := func(h *ssa.Function) bool { return eng.PkgPathOf(h) != eng.Mod+"/"+mainPkg }
+	vreg := c.NewRegion(val, 3, inMain)
+	sreg := c.NewRegion(a.startFn, 4, inMain)
+	vs, ss := enumSets(c, vreg), enumSets(c, sreg)
+	lsT := "(*" + a.lsType + ")."
+	isListen := isCall(lsT+"ListenStream", lsT+"ListenPacket")
+	nAgree := 0
+	for k, v := range vs {
+		h, ok := ss[k]
+		if !ok {
+			continue
+		}
+		nAgree++
+		// candidate values: every constant either side mentions, plus "anything else"
+		cand := map[string]bool{"<any other value>": true}
+		for x := range v {
+			cand[x] = true
+		}
+		for x := range h {
+			cand[x] = true
+		}
+		var bad []string
+		for _, u := range keysOf(cand) {
+			acc := enumWalk(c, vreg, k, u, func(ins ssa.Instruction) bool { return false })
+			if !acc {
+				continue // Validate rejects u
+			}
+			if enumWalk(c, sreg, k, u, sreg.May(isListen)) {
+				bad = append(bad, u)
+			}
+		}
+		c.Check("VALIDATE", "accepted-values-are-handled:"+k, p.Pos(val.Pos()), len(bad) == 0, fmt.Sprintf("Validate lets %s = %v through, but for that value the start code can finish the entry without listening: the reload succeeds with a listener silently missing", k, bad))
+	}
+	c.Floor("VALIDATE", "enumerated configuration fields tested by both Validate and the start code", nAgree, 1)
+	pure := true
+	var at ssa.Instruction
+	vreg.Instrs(func(_ *ssa.Function, ins ssa.Instruction) {
+		st, ok := ins.(*ssa.Store)
+		if !ok {
+			return
+		}
+		fa, ok := st.Addr.(*ssa.FieldAddr)
+		if !ok {
+			return
+		}
+		t, _, _, ok := eng.FieldOf(fa)
+		if !ok || !strings.HasPrefix(t, mainPkg+".") {
+			return
+		}
+		if al, isLocal := fa.X.(*ssa.Alloc); isLocal && !al.Heap || isLocal {
+			pure, at = false, st
+		}
+	})
+	pos := p.Pos(val.Pos())
+	if at != nil {
+		pos = p.IPos(at)
+	}
+	c.Check("VALIDATE", short(val)+":tests-the-configuration-not-a-rewritten-copy", pos, pure, "Validate assigns to a field of a local copy of a configuration entry before testing it: it accepts the rewritten value while the start code sees the original one")
+}
+
+// enumWalk: with the configuration field k holding the value u, can control go from a test of k to the end of the entry's
+// processing (next loop iteration, or a return without error) without passing an instruction matching hit? Branches that test
+// k against constants are followed according to u; all other branches are explored both ways; error returns end a path.
+func enumWalk(c *Ctx, reg *Region, k, u string, hit func(ssa.Instruction) bool) bool {
+	isK := func(v ssa.Value) bool {
+		for _, o := range c.P.Origins(v, eng.OriginOpts{ThroughConvert: true}) {
+			t, f, _, ok := eng.FieldLoad(o)
+			if !ok {
+				if fl, isF := o.(*ssa.Field); isF {
+					if st, isS := fl.X.Type().Underlying().(*types.Struct); isS {
+						t, f, ok = eng.TypeName(fl.X.Type()), st.Field(fl.Field).Name(), true
+					}
+				}
+			}
+			if ok && t+"."+f == k {
+				return true
+			}
+		}
+		return false
+	}
+	// known(cond): (value, known)
+	var known func(v ssa.Value) (bool, bool)
+	known = func(v ssa.Value) (bool, bool) {
+		switch x := v.(type) {
+		case *ssa.UnOp:
+			if x.Op == token.NOT {
+				b, ok := known(x.X)
+				return !b, ok
+			}
+		case *ssa.BinOp:
+			if x.Op != token.EQL && x.Op != token.NEQ {
+				return false, false
+			}
+			for _, pr := range [][2]ssa.Value{{x.X, x.Y}, {x.Y, x.X}} {
+				cst, ok := pr[1].(*ssa.Const)
+				if !ok || cst.Value == nil || !isK(pr[0]) {
+					continue
+				}
+				eq := cst.Value.ExactString() == u
+				if x.Op == token.NEQ {
+					eq = !eq
+				}
+				return eq, true
+			}
+		}
+		return false, false
+	}
+	found := false
+	for _, f := range reg.Fns {
+		ei := errorResultIndex(f.Signature)
+		loops := eng.Loops(f)
+		// entry blocks: blocks whose terminator tests k and that are not reachable from another such block first
+		var tests []*ssa.BasicBlock
+		for _, b := range f.Blocks {
+			if iff, ok := b.Instrs[len(b.Instrs)-1].(*ssa.If); ok {
+				if _, kn := known(iff.Cond); kn {
+					tests = append(tests, b)
+				}
+			}
+		}
+		for _, tb := range tests {
+			dominated := false
+			for _, ob := range tests {
+				if ob != tb && ob.Dominates(tb) {
+					dominated = true
+				}
+			}
+			if dominated {
+				continue
+			}
+			lp := eng.InnermostLoop(loops, tb)
+			seen := map[*ssa.BasicBlock]bool{}
+			var walk func(b *ssa.BasicBlock, first bool) bool // true: an un-hit way to the end of the entry exists
+			walk = func(b *ssa.BasicBlock, first bool) bool {
+				if !first && lp != nil && b == lp.Header {
+					return true // next iteration
+				}
+				if seen[b] {
+					return false
+				}
+				seen[b] = true
+				for _, ins := range b.Instrs {
+					if hit(ins) {
+						return false
+					}
+					if r, ok := ins.(*ssa.Return); ok {
+						if ei >= 0 && ei < len(r.Results) && !eng.IsZeroValue(r.Results[ei]) {
+							return false // loud failure
+						}
+						return true
+					}
+				}
+				if iff, ok := b.Instrs[len(b.Instrs)-1].(*ssa.If); ok {
+					if v, kn := known(iff.Cond); kn {
+						if v {
+							return walk(b.Succs[0], false)
+						}
+						return walk(b.Succs[1], false)
+					}
+				}
+				for _, s := range b.Succs {
+					if walk(s, false) {
+						return true
+					}
+				}
+				return false
+			}
+			if walk(tb, true) {
+				found = true
+			}
+		}
+	}
+	return found
+}
+
+func keysOf(m map[string]bool) []string {
+	var out []string
+	for k := range m {
+		out = append(out, k)
+	}
+	sort.Strings(out)
+	return out
 }
 
 // C10.KEEPOLD (shared with C11.ORDER)
@@ -525,6 +761,92 @@ func failureEdgeReturnsError(c *Ctx, f *ssa.Function, fe eng.Edge, ei int) (bool
 		return false, fmt.Sprintf("on the failure edge %s a return with a nil error is reachable (%s): the failure is skipped, not reported", fmtEdge(c.P, fe), c.P.IPos(bad[0]))
 	}
 	return true, ""
+}
+
+// C10.FRESH: a generation is built from the new configuration only. The start code does not write package-level variables
+// or fields of the long-lived server object (nor mutate maps / sync containers held there): anything written there by one
+// generation is read by the next, so keys, ciphers or listeners of an earlier — possibly failed — load would leak into a later
+// one. (The replay history is shared on purpose: the start code only takes its address.)
+func ruleFresh(c *Ctx, a *reloadAnchors) {
+	p := c.P
+	inMain := func(h *ssa.Function) bool { return eng.PkgPathOf(h) != eng.Mod+"/"+mainPkg }
+	reg := c.NewRegion(a.startFn, 4, inMain)
+	serverT := ""
+	if r := a.runCfg.Signature.Recv(); r != nil {
+		serverT = eng.TypeName(r.Type())
+	}
+	// rootOf: the global or server-object field an address / container value lives in
+	var rootOf func(v ssa.Value, d int) string
+	rootOf = func(v ssa.Value, d int) string {
+		if v == nil || d > 10 {
+			return ""
+		}
+		switch x := v.(type) {
+		case *ssa.Global:
+			if x.Pkg != nil && strings.HasPrefix(x.Pkg.Pkg.Path(), eng.Mod) {
+				return "package variable " + x.Name()
+			}
+		case *ssa.FieldAddr:
+			if t, f, _, ok := eng.FieldOf(x); ok && t == serverT {
+				return "server field " + f
+			}
+			return rootOf(x.X, d+1)
+		case *ssa.IndexAddr:
+			return rootOf(x.X, d+1)
+		case *ssa.UnOp:
+			if x.Op == token.MUL {
+				return rootOf(x.X, d+1)
+			}
+		case *ssa.ChangeType:
+			return rootOf(x.X, d+1)
+		case *ssa.MakeInterface:
+			return rootOf(x.X, d+1)
+		}
+		return ""
+	}
+	mutating := map[string]bool{"Store": true, "LoadOrStore": true, "LoadAndDelete": true, "Delete": true, "Swap": true, "CompareAndSwap": true, "CompareAndDelete": true, "Clear": true, "Add": true, "Set": true, "Put": true, "PushBack": true, "PushFront": true, "Remove": true, "Init": true}
+	n := 0
+	var bad ssa.Instruction
+	why := ""
+	reg.Instrs(func(f *ssa.Function, ins ssa.Instruction) {
+		n++
+		switch x := ins.(type) {
+		case *ssa.Store:
+			if r := rootOf(x.Addr, 0); r != "" {
+				bad, why = x, "writes "+r
+			}
+		case *ssa.MapUpdate:
+			if r := rootOf(x.Map, 0); r != "" {
+				bad, why = x, "updates the map in "+r
+			}
+		case *ssa.Call:
+			if _, ok := isBuiltinCall(x, "delete"); ok {
+				if r := rootOf(x.Call.Args[0], 0); r != "" {
+					bad, why = x, "deletes from the map in "+r
+				}
+				return
+			}
+			if x.Call.IsInvoke() || len(x.Call.Args) == 0 {
+				return
+			}
+			g := x.Call.StaticCallee()
+			if g == nil || g.Signature.Recv() == nil || !mutating[g.Name()] {
+				return
+			}
+			if pk := eng.PkgPathOf(g); pk != "sync" && pk != "sync/atomic" && pk != "container/list" {
+				return
+			}
+			if r := rootOf(x.Call.Args[0], 0); r != "" {
+				bad, why = x, "calls "+g.Name()+" on "+r
+			}
+		}
+	})
+	pos := p.Pos(a.startFn.Pos())
+	if bad != nil {
+		pos = p.IPos(bad)
+	}
+	c.Check("FRESH", short(a.startFn)+":no-state-carried-between-generations", pos, bad == nil, "the start code "+why+": state written while loading one configuration is read while loading the next, so what serves after a reload is not determined by the newly loaded configuration alone")
+	c.Floor("FRESH", "instructions examined in the start code", n, 100)
 }
 
 // C10.RELEASE
